@@ -8,6 +8,7 @@ dependency finder.
 from __future__ import annotations
 
 import itertools
+import os
 from dataclasses import dataclass, field
 from datetime import datetime, timedelta
 from typing import Any, Iterable, Iterator, Optional, Sequence
@@ -17,6 +18,7 @@ from labtech.types import ResultMeta, TaskResult
 from . import universe as U
 
 PLACEMENTS = ('direct', 'list', 'tid', 'dil', 'mixed')
+STR_SALT = bool(os.environ.get('VERIF_STR_SALT'))
 
 
 @dataclass(frozen=True)
@@ -111,7 +113,12 @@ class Built:
         else:
             deps = [self.canon[j] for j in spec.deps[i]]
         cls = U.TYPES[spec.types[i]]
-        return cls(label=spec.labels[i], **place_deps(spec.place[i], deps))
+        kw = place_deps(spec.place[i], deps)
+        if STR_SALT and 'd3' not in kw:
+            # a string parameter makes hash(task) - and with it every set/dict order inside
+            # labtech - depend on PYTHONHASHSEED (hash-seed slices run in fresh interpreters)
+            kw['d3'] = f'salt-{spec.labels[i]}'
+        return cls(label=spec.labels[i], **kw)
 
     def fresh(self, i: int):
         return self._build(i, fresh=True)
@@ -147,6 +154,8 @@ def ctx_view_for(spec: Spec, i: int, context: Optional[dict]):
     if spec.types[i] == 'TF':
         keep = f'k{spec.labels[i] % 2}'
         context = {k: v for k, v in context.items() if k == keep or k.startswith('_')}
+    elif spec.types[i] == 'TG':
+        context = dict(context, applied=context.get('applied', 0) + 1, mine=f'for-{spec.labels[i]}')
     return tuple(sorted((k, v) for k, v in context.items() if not k.startswith('_')))
 
 
